@@ -27,7 +27,7 @@ RULE = ("case = (functional/method, function or operator kind, history); non-tri
         "repetitions of the history completed (each executes the real functional and, per history, its backward passes) and K+1 census "
         "samples were taken")
 MIN_NONTRIVIAL = {"quick": 250, "thorough": 1200}
-REQUIRED_COUNTERS = {"quick": {"census_samples": 1000}, "thorough": {"census_samples": 5000}}
+REQUIRED_COUNTERS = {"quick": {"census_samples": 1000, "singular_fallback_taken": 8}, "thorough": {"census_samples": 5000, "singular_fallback_taken": 20}}
 ASSUMPTIONS = ["the scripted-function representation is excluded (the TorchScript profiling executor keeps its own tensors for the first runs)",
                "K=3 repetitions after 2 warm-up calls; growth must be strictly positive in each of the last two repetitions to be called a leak",
                "single-threaded worker; the census is process-local and taken with gc disabled (gc.collect() only between cases)"]
@@ -70,6 +70,13 @@ def cases(seed, tier):
                         out.append({"group": fn, "method": method, "opkind": kind, "withM": withM, "history": h, "n": 6,
                                     "seed": sub_seed(seed, "c19s", k)})
                         k += 1
+    # exactly singular shifted systems: the dense solver's fallback branch (taken by every symeig backward on a matrix whose
+    # eigenvalues are exact, e.g. a diagonal one, and by solve with a shift equal to an eigenvalue)
+    for kind in ("solve_shift_eq_eigenvalue", "symeig_diagonal_custom_exacteig", "symeig_diagonal_davidson"):
+        for h in HISTORIES:
+            for n in ((5, 16) if quick else (4, 5, 9, 16, 33)):
+                out.append({"group": "singular", "kind": kind, "history": h, "n": n, "seed": sub_seed(seed, "c19s", k)})
+                k += 1
     for cls in ("interp_linear", "interp_cspline", "squad_trapz", "squad_cspline", "squad_simpson"):
         for h in HISTORIES[:3]:
             out.append({"group": "sampled", "cls": cls, "history": h, "seed": sub_seed(seed, "c19s", k)})
@@ -199,6 +206,27 @@ def make_call(desc):
             u, s, vh = svd(Aop, k=2, method=method)
             _history([s, (u * u).sum(-2), (vh * vh).sum(-1)], leaves, h, tg, dtype)
         return call, (leaves,)
+    if g == "singular":
+        import xitorch
+        from xitorch.linalg import solve, symeig
+        n = desc["n"]
+        d = torch.arange(1, n + 1, dtype=dtype).requires_grad_()
+        B = torch.ones(n, 2, dtype=dtype).requires_grad_()
+        kind = desc["kind"]
+        if kind == "solve_shift_eq_eigenvalue":
+            E = torch.tensor([2.0, 2.5], dtype=dtype).requires_grad_()      # 2.0 is an eigenvalue of diag(1..n): A - 2 I is exactly singular
+
+            def call():
+                X = solve(xitorch.LinearOperator.m(torch.diag_embed(d)), B, E, method="exactsolve")
+                X = torch.nan_to_num(X, nan=0.0, posinf=0.0, neginf=0.0) * 1e-12
+                _history([X], [d, B, E], h, tg, dtype)
+            return call, (d, B, E)
+        method = "custom_exacteig" if kind.endswith("custom_exacteig") else "davidson"
+
+        def call():
+            ev, evec = symeig(xitorch.LinearOperator.m(torch.diag_embed(d), is_hermitian=True), neig=2, method=method)
+            _history([ev, (evec * evec).sum(-1)], [d], h, tg, dtype)
+        return call, (d,)
     if g == "sampled":
         from xitorch.interpolate import Interp1D
         from xitorch.integrate import SQuad
@@ -219,12 +247,32 @@ def make_call(desc):
 
 def run_case(desc):
     obs = Obs(desc)
-    mech_cfg = ":".join(str(desc.get(k)) for k in ("functional", "method", "opkind", "emode", "withM", "cls", "rep") if desc.get(k) is not None)
+    mech_cfg = ":".join(str(desc.get(k)) for k in ("functional", "kind", "method", "opkind", "emode", "withM", "cls", "rep") if desc.get(k) is not None)
     mech = "%s:%s:%s" % (desc["group"], mech_cfg, desc["history"])
     call, keep = make_call(desc)
     try:
         with WarnLog():
-            call()
+            if desc["group"] == "singular":
+                # reach counter (first warm-up call only - the census runs without this wrapper): was the singular fallback taken?
+                orig_solve = torch.linalg.solve
+                hits = [0]
+
+                def counting_solve(*a, **k):
+                    try:
+                        return orig_solve(*a, **k)
+                    except torch._C._LinAlgError:
+                        hits[0] += 1
+                        raise
+                torch.linalg.solve = counting_solve
+                try:
+                    call()
+                finally:
+                    torch.linalg.solve = orig_solve
+                obs.count("singular_fallback_taken", hits[0])
+                if hits[0] == 0 and desc.get("kind") != "symeig_diagonal_davidson" and desc["history"] != "fwd":
+                    raise HarnessBug("the exactly singular configuration did not reach the dense solver's fallback branch")
+            else:
+                call()
             call()          # warm-up: lazily created caches (torch and xitorch) are not what the property is about
     except Exception as e:
         obs.skip("history does not complete on this configuration (%s: %s)" % (type(e).__name__, str(e)[:60]))
